@@ -367,9 +367,9 @@ def job_balance(job, nx):
 class ConstAlphaFluid(FluidStub):
     """FlowProperties contract stub with a pressure-independent diffusivity (one positive symbol)."""
 
-    def __init__(self):
-        super().__init__()
-        self.a0 = fresh("alpha0", pos=True)
+    def __init__(self, name=""):
+        super().__init__(name)
+        self.a0 = fresh(f"alpha0{name}", pos=True)
 
     def alpha(self, m):
         if isinstance(m, SymArray):
@@ -401,7 +401,38 @@ def replay_balance_sp(model, nx=3, nt=3):
     return False, {"what": "discrete mass balance holds on the real runs", "inputs": {k: v for k, v in model.items() if k != "__uf__"}}
 
 
-def job_balance_sp(job, nx, reachable):
+def replay_balance_reused(model, nx=3, nt=3):
+    """Real runs: one SinglePhaseReservoir simulated with a constant-diffusivity fluid, its `fluid` replaced by another one
+    (other diffusivity, other m_i), simulated again: the discrete mass balance of the second run."""
+    import numpy as np
+    from bluebonnet.flow import reservoir as rr
+    from .c01 import _DuckFluid
+    t = [0.0]
+    for k in range(1, nt):
+        t.append(t[-1] + float(model.get(f"dt{k}") or 10.0 ** (-k)))
+    t = np.array(t)
+    problems = []
+    for a1, a2 in ((1.0, 7.0), (3.0, 0.2)):
+        fa, fb = _DuckFluid({"m_i": 1.0}, nt), _DuckFluid({"m_i": 2.5}, nt)
+        fa.alpha = lambda m, a=a1: np.full(np.shape(m), a) if hasattr(m, "__len__") else a
+        fb.alpha = lambda m, a=a2: np.full(np.shape(m), a) if hasattr(m, "__len__") else a
+        r = rr.SinglePhaseReservoir(nx, 0.0, float(nt), fa)
+        r.simulate(t, pressure_fracface=np.arange(nt, dtype=float))
+        r.fluid = fb
+        r.simulate(t, pressure_fracface=np.arange(nt, dtype=float))
+        pp = np.asarray(r.pseudopressure, float)
+        for i in range(nt - 1):
+            prev = np.minimum(pp[i], fb.m_i)
+            lhs = float(np.sum(pp[i + 1][1:] - prev[1:]))
+            rhs = float((t[i + 1] - t[i]) * nx ** 2 * (pp[i + 1][0] - pp[i + 1][1]))
+            if abs(lhs - rhs) > 1e-9 * (abs(lhs) + abs(rhs)) + 1e-12 * fb.m_i:
+                problems.append(f"object re-used after its fluid was replaced (constant diffusivity {a1} -> {a2}): step {i}: change of the stored field "
+                                f"over nodes 1.. = {lhs!r} but the flux through the first face is {rhs!r}")
+                break
+    return bool(problems), {"what": "; ".join(problems[:2]) or "mass balance holds on the re-used object", "inputs": {k: v for k, v in model.items() if k != "__uf__"}}
+
+
+def job_balance_sp(job, nx, reachable, reused=False):
     """Single-phase reservoir, pressure-independent diffusivity, arbitrary frac-face schedule: the stored field changes
     by exactly what crosses the face next to the fracture (discrete mass conservation of the interior and outer rows).
     reachable=False: step from an arbitrary level inside C01's bounds; True: first two steps from the initial state."""
@@ -409,7 +440,7 @@ def job_balance_sp(job, nx, reachable):
     job.encoded(mod, "SinglePhaseReservoir.simulate", "_build_matrix", "SinglePhaseReservoir.alpha_scaled")
     job.stub("fluid*: FlowProperties contract stub with constant diffusivity", "linear solve: ideal solve A x = b")
     nt = 3
-    tag = f"balance-singlephase[nx={nx},{'from the initial state' if reachable else 'arbitrary level'}]"
+    tag = f"balance-singlephase[nx={nx},{'from the initial state' if reachable else 'arbitrary level'}{',object re-used after its fluid was replaced' if reused else ''}]"
     hold = {}
 
     def pol(rec):
@@ -431,11 +462,21 @@ def job_balance_sp(job, nx, reachable):
         t, _ = times(nt)
         fluid = ConstAlphaFluid()
         hold["fluid"] = fluid
-        r = mod.SinglePhaseReservoir(Q(nx), fresh("pf"), fresh("pi", pos=True), fluid)
+        if reused:
+            # an earlier run of the same object with another constant-diffusivity fluid (solves of that run: exact)
+            first = ConstAlphaFluid("_first")
+            hold["fluid"] = first
+            r = mod.SinglePhaseReservoir(Q(nx), fresh("pf"), fresh("pi", pos=True), first)
+            r.simulate(t, pressure_fracface=SymArray([fresh(f"pfs0_{k}") for k in range(nt)], "f8"))
+            SS.LinSolve.reset(pol)
+            r.fluid = fluid
+            hold["fluid"] = fluid
+        else:
+            r = mod.SinglePhaseReservoir(Q(nx), fresh("pf"), fresh("pi", pos=True), fluid)
         r.simulate(t, pressure_fracface=SymArray([fresh(f"pfs{k}") for k in range(nt)], "f8"))
         return rows_of(r), t, fluid
 
-    rp = (replay_balance_sp, {"nx": nx, "nt": nt})
+    rp = (replay_balance_reused, {"nx": nx, "nt": nt}) if reused else (replay_balance_sp, {"nx": nx, "nt": nt})
     for k, pr in enumerate(paths(job, run, [], max_paths=16)):
         if pr.exc is not None:
             job.errors.append(f"{tag} raised {pr.exc!r}")
@@ -478,6 +519,7 @@ def jobs(tier):
     for nx in ((3, 4) if tier == "quick" else (3, 4, 5, 6)):
         out.append((f"balance-sp-{nx}", lambda j, n=nx: job_balance_sp(j, n, False)))
         out.append((f"balance-sp-reach-{nx}", lambda j, n=nx: job_balance_sp(j, n, True)))
+    out.append(("balance-sp-reused-3", lambda j: job_balance_sp(j, 3, True, True)))
     if tier != "quick":
         out += [("ceiling-5-3", lambda j: job_zero_and_ceiling(j, 5, 3)), ("ceiling-3-3", lambda j: job_zero_and_ceiling(j, 3, 3)),
                 ("trapezoid-6", lambda j: job_trapezoid(j, 6))]
